@@ -120,6 +120,8 @@ type SimConfig struct {
 	// ScanRegistered iterates every registered filter after every op and checks the visited
 	// set against the model (C03: "registered or not").
 	ScanRegistered bool
+	// Trace records, after every op, everything the primary world returned (C13).
+	Trace bool
 	// OwnedIf can claim a finding of a category that is not owned unconditionally.
 	OwnedIf func(s *Sim, f *Finding) bool
 }
@@ -165,6 +167,10 @@ type Sim struct {
 	Step        int
 	// Flags are facts about the last op, for labels and non-triviality rules.
 	Flags map[string]int
+	// Trace (if Cfg.Trace): one entry per op.
+	Trace []string
+	// LastQueryOrder is the order in which the last scripted query visited its entities.
+	LastQueryOrder []ecs.Entity
 	// QueryHook, if set, is called with the open query a Q variant returned, before it is iterated.
 	QueryHook func(b *WB, q *ecs.Query) *Finding
 }
@@ -353,10 +359,18 @@ func (s *Sim) Apply(op Op) {
 	o := &s.Ops[len(s.Ops)-1]
 	s.TargetDied = false
 	s.Flags = nil
+	s.LastQueryOrder = nil
 	s.Step++
+	prevHandles := len(s.B.H)
+	if o.K == OpReset {
+		prevHandles = 0
+	}
 	s.dispatch(o)
 	if s.Done() {
 		return
+	}
+	if s.Cfg.Trace {
+		s.Trace = append(s.Trace, s.traceStep(o, prevHandles))
 	}
 	s.VerifyAll()
 }
@@ -1359,6 +1373,7 @@ func (s *Sim) doBatch(o *Op) {
 			return
 		}
 		if !loop && q == nil {
+			s.Flag("batch.count", count)
 			want := len(sel)
 			if count != want && !(noop && count == 0) {
 				cat := CatBatchDiff
